@@ -1,45 +1,23 @@
 (* Corr/C01.v — monitor for C01 on recorded histories. *)
 From AS Require Import Base.Str Http.Cookie Url.Escape Oidc.Types Oidc.Prog Oidc.Handler Corr.Common Corr.Hist.
 
-(* An OK answer must be justified: the request names a session (cookie), every effect of the check
-   succeeded, the store returned tokens for exactly that session which are the ones last bound to it,
-   and they are unexpired now - or they were expired, carried a refresh token, a refresh exchange with
-   that refresh token was answered with a decodable body and the renewed tokens were stored for the
-   same session before answering. *)
-Definition is_refresh_of (c : cfg) (t : tokens) (ea : eff * ans) : bool :=
-  match ea with
-  | (EIdp r, AIdp (IdpBody _)) =>
-      let '(params, err) := parse_query (q_body r) in
-      negb err && String.eqb (qget "grant_type" params) "refresh_token" &&
-      String.eqb (qget "refresh_token" params) (t_refresh t)
-  | _ => false
-  end.
-
-Definition justified (c : cfg) (db : tokdb) (g : ghost) (s : step) : bool :=
-  let sid := sid_of c s in
-  negb (String.eqb sid "") && all_answers_ok (s_trace s) &&
+(* (a) per check: the proved shape of an OK verdict (Oidc/Monitors.ok_shape, theorem C01_ok_justified);
+   (b) across the history: the tokens the store answered with are the ones last bound to the presented
+   session by a performed write - nothing was ever bound, or the session was removed => no OK. *)
+Definition justified_by_history (c : cfg) (g : ghost) (s : step) : bool :=
   match s_trace s with
-  | (EGetTok sid', ATok (Some (Some t))) :: rest =>
-      String.eqb sid' sid &&
-      match lookup sid g with
+  | (EGetTok sid', ATok (Some (Some t))) :: _ =>
+      match lookup sid' g with
       | Some (GSTokens t0) => tokens_eqb t t0
       | Some GSUnknown => true
-      | None => false                        (* nothing was ever bound to this id, or it was removed *)
-      end &&
-      match tokens_expired c db (s_now s) t with
-      | Some false => match rest with [] => true | _ => false end
-      | Some true =>
-          negb (String.eqb (t_refresh t) "") && existsb (is_refresh_of c t) rest &&
-          match last rest (EGen, AUnit false) with
-          | (ESetTok sid'' _, AUnit true) => String.eqb sid'' sid
-          | _ => false
-          end
       | None => false
       end
   | _ => false
   end.
 
 Definition mon01 (c : cfg) (db : tokdb) (g : ghost) (s : step) : ghost * bool :=
-  (ghost_step g s, if is_allow (s_resp s) then justified c db g s else true).
+  (ghost_step g s,
+   mon_ok_justified c db (s_now s) (s_req s) (s_trace s) (s_resp s) &&
+   (if is_allow (s_resp s) then justified_by_history c g s else true)).
 
 Definition run (hs : list hist) : list fail := take 20 (run_hists ghost [] mon01 0 hs).
